@@ -36,4 +36,19 @@ def readCharsAscii (s : List Char) : List Char :=
   else if n % 4 = 0 then ((chunks 4 n s).map spaced).intersperse " , ".toList |>.flatten
   else (s.map fun c => [c]).intersperse " , ".toList |>.flatten
 
+/-! ### numbers written with an exponent
+
+`decimal.NewFromString` reads `<digits>[.<digits>][e<exponent>]` as a coefficient and the exponent `e - (number of fraction
+digits)`.  The two places that read numbers this way refuse an exponent beyond a limit, because the cost of comparing,
+computing with and rendering such a number grows with it: contact queries (`contactql.Condition.ValueAsNumber`, ±1000) and
+JSON (`types.JSONToXValue`, ±10000). -/
+
+def decimalExponent (fractionDigits : Nat) (e : Int) : Int := e - fractionDigits
+
+def queryNumberOk (fractionDigits : Nat) (e : Int) : Bool :=
+  decide (-1000 ≤ decimalExponent fractionDigits e ∧ decimalExponent fractionDigits e ≤ 1000)
+
+def jsonNumberOk (fractionDigits : Nat) (e : Int) : Bool :=
+  decide (-10000 ≤ decimalExponent fractionDigits e ∧ decimalExponent fractionDigits e ≤ 10000)
+
 end GoflowModel.SliceGuards
